@@ -2,7 +2,7 @@
    The search for the block (end of central directory, central directory, magic, the two size fields: locate) is part
    of the model and of the correspondence check, not of these theorems. *)
 From Coq Require Import ZArith List Bool Lia ZifyBool.
-Require Import V.Lib.Val V.Lib.Result V.Apk.SigBlockModel V.Apk.SigBlockProofs.
+Require Import V.Lib.Val V.Lib.Result V.Apk.SigBlockModel V.Apk.SigBlockProofs V.Apk.SigBlockLocate.
 Import ListNotations.
 Open Scope Z_scope.
 
@@ -33,6 +33,22 @@ Theorem C33_signers_are_reported_as_encoded : forall v3 gs,
   parse_block v3 (block_bytes v3 gs) = Ok (map (signer_val v3) gs).
 Proof. exact parse_block_enc. Qed.
 Print Assumptions C33_signers_are_reported_as_encoded.
+
+(* the search: for every file  prefix ++ signing block ++ central directory ++ end-of-central-directory record  (any pairs, any
+   prefix and central directory, any comment) in which no later position looks like an end record, the block is found through
+   the end record, the central directory offset, the magic and the two size fields, and its pairs are the ones encoded *)
+Theorem C33_block_is_located : forall pre kvs cdrest e0 e1 e2 e3 e4 e5 e6 e7 cdsize comment_part,
+  let B := sig_block kvs in let off := len pre + len B in
+  let file := pre ++ B ++ (PK_CD ++ cdrest) ++ eocd [e0; e1; e2; e3; e4; e5; e6; e7] cdsize off comment_part in
+  Forall wf_kv kvs -> len (flat_map kv_bytes kvs) + 24 < 18446744073709551616 -> off < 4294967296 -> 0 <= cdsize < 4294967296 -> 2 <= len comment_part ->
+  (forall q, len pre + len B + len (PK_CD ++ cdrest) < q <= len file - 22 -> bytes_eqb (slice file q 4) PK_EOCD = false) ->
+  locate file = Ok (Pairs (tag [] kvs)).
+Proof. exact locate_finds_the_block. Qed.
+Print Assumptions C33_block_is_located.
+Example C33_locate_nonvacuous :
+  let kvs := [(ID_V2, [1; 2; 3]); (7, [])] in
+  locate ([9; 9; 9] ++ sig_block kvs ++ (PK_CD ++ [5; 5]) ++ eocd [0; 0; 0; 0; 1; 0; 1; 0] 6 (3 + len (sig_block kvs)) [0; 0]) = Ok (Pairs (tag [] kvs)).
+Proof. vm_compute. reflexivity. Qed.
 
 Example C33_nonvacuous :
   let g := {| ge_skip := 77; ge_digests := [{| se_skip := 9; se_alg := 259; se_data := [1; 2] |}]; ge_certs := [[5; 6; 7]; []];
